@@ -1,12 +1,15 @@
 #!/bin/bash
-# tools/seedtest.sh <seed-dir> <PROP> [tier]  : apply a seeded change to /repo, run the check, undo.
+# tools/seedtest.sh <seed-dir> <PROP> [tier] : try a seeded change on a scratch clone of /repo
+# (GOSYM_REPO), run the check against it, remove the clone. /repo itself is not touched.
 set -u
-d=$1; prop=$2; tier=${3:-quick}
+d=$(realpath $1); prop=$2; tier=${3:-quick}
 cd /verif
-if ! git -C /repo diff --quiet; then echo "repo dirty"; exit 3; fi
-git -C /repo apply "$(realpath $d)/patch.diff" || { echo "patch does not apply"; exit 3; }
-timeout 3000 ./check $prop $tier > /tmp/seedtest.$prop.out 2>&1
+scratch=$(mktemp -d /tmp/seedrepo.XXXXXX)
+git -C /repo worktree add --detach "$scratch/repo" HEAD >/dev/null 2>&1 || { echo "worktree failed"; exit 3; }
+git -C "$scratch/repo" apply "$d/patch.diff" || { echo "patch does not apply"; git -C /repo worktree remove --force "$scratch/repo"; exit 3; }
+GOSYM_REPO="$scratch/repo" GOSYM_EVIDENCE_DIR="$scratch/evidence" timeout 3000 ./bin/gosym check $prop $tier > /tmp/seedtest.$prop.$$.out 2>&1
 rc=$?
-git -C /repo checkout -- .
-echo "seed=$d prop=$prop tier=$tier exit=$rc"
-grep -E "^VIOLATION|^RESULT|^INCONCLUSIVE|^KNOWN-FINDING" /tmp/seedtest.$prop.out | cut -c1-400 | head -12
+git -C /repo worktree remove --force "$scratch/repo"; rm -rf "$scratch"
+echo "seed=$1 prop=$prop tier=$tier exit=$rc"
+grep -E "^VIOLATION|^RESULT|^INCONCLUSIVE|^KNOWN-FINDING" /tmp/seedtest.$prop.$$.out | cut -c1-400 | head -8
+rm -f /tmp/seedtest.$prop.$$.out
